@@ -32,12 +32,15 @@ fn judge(w: &NetWorld, at_quiescence: bool) -> Vec<(String, String)> {
     let mut copies = 0;
     let mut acks = 0;
     for (from, to, line) in w.traffic.iter() {
-        let l = line.trim();
+        let reply = line.starts_with(REPLY_MARK);
+        let l = line.trim_start_matches(REPLY_MARK).trim();
         if l.starts_with("ack ") {
             acks += 1;
             continue;
         }
-        if !is_request(l) {
+        // anything else written back on the connection a command came in on is that command's
+        // result line (`ok`, `error ..`, `create-db success`, ...), not a message of its own
+        if reply || !is_request(l) {
             continue;
         }
         if *from == p {
